@@ -4,7 +4,8 @@
     first, then the greater-than sign, then the less-than sign; the optional entities
     dictionary of python-pptx is the single pair double-quote -> the quot entity) and the
     part of an XML 1.0 parser (libxml2 as configured by pptx.oxml.parse_xml) that decides
-    what ONE template slot becomes once the text is parsed:
+    what ONE template slot becomes once the text is parsed (a CDATA section inside element
+    content is read as the characters it holds; any other markup breaks the slot):
       - a double-quoted attribute value (production AttValue, with the attribute-value
         normalisation of section 3.3.3 and the line-end handling of section 2.11),
       - element content made of character data and references only (production content
@@ -120,15 +121,21 @@ Definition ctx_eqb (a b : ctx) : bool :=
   match a, b with AttrDq, AttrDq | Text, Text => true | _, _ => false end.
 
 (** Lexer state: in character data (with the number of right brackets just seen, capped
-    at two, and whether the previous character was a carriage return), or inside a
-    reference (the name read so far, reversed). *)
-Inductive mode := MNorm (rb : nat) (cr : bool) | MRef (nm : str).
+    at two, and whether the previous character was a carriage return), inside a
+    reference (the name read so far, reversed), matching the opening of a CDATA section
+    after a less-than sign (number of characters matched), or inside a CDATA section. *)
+Inductive mode := MNorm (rb : nat) (cr : bool) | MRef (nm : str) | MCdOpen (k : nat) | MCd (rb : nat) (cr : bool).
 Inductive lst := Run (m : mode) (acc : str) | Closed (acc : str) | Dead.
 
 (** Attribute-value normalisation of a literal white-space character. *)
 Definition attr_ws (c : N) : N := if (c =? c_tab) || (c =? c_lf) then c_sp else c.
 (** What a carriage return (with an optional following line feed) becomes. *)
 Definition eol (cx : ctx) : N := match cx with AttrDq => c_sp | Text => c_lf end.
+
+(** what follows the less-than sign when a CDATA section opens: ![CDATA[ *)
+Definition cdata_open : list N := [33; 91; 67; 68; 65; 84; 65; 91].
+
+Definition bump (c : N) (rb : nat) : nat := if c =? c_rbr then Nat.min 2 (S rb) else 0%nat.
 
 Definition step (cx : ctx) (st : lst) (c : N) : lst :=
   match st with
@@ -141,10 +148,20 @@ Definition step (cx : ctx) (st : lst) (c : N) : lst :=
         | None => Dead
         end
       else Run (MRef (c :: nm)) acc
+  | Run (MCdOpen k) acc =>
+      if c =? nth k cdata_open 0 then
+        (if (S k =? 8)%nat then Run (MCd 0 false) acc else Run (MCdOpen (S k)) acc)
+      else Dead                           (* any other markup: element, comment, instruction *)
+  | Run (MCd rb cr) acc =>
+      if negb (is_xml_char c) then Dead
+      else if c =? c_cr then Run (MCd 0 true) (c_lf :: acc)
+      else if (c =? c_lf) && cr then Run (MCd 0 false) acc
+      else if (c =? c_gt) && (2 <=? rb)%nat then Run (MNorm 0 false) (tl (tl acc))
+      else Run (MCd (bump c rb) false) (c :: acc)
   | Run (MNorm rb cr) acc =>
       if negb (is_xml_char c) then Dead
       else if c =? c_amp then Run (MRef []) acc
-      else if c =? c_lt then Dead
+      else if c =? c_lt then (match cx with AttrDq => Dead | Text => Run (MCdOpen 0) acc end)
       else if c =? c_cr then Run (MNorm 0 true) (eol cx :: acc)
       else if (c =? c_lf) && cr then Run (MNorm 0 false) acc
       else match cx with
@@ -153,7 +170,7 @@ Definition step (cx : ctx) (st : lst) (c : N) : lst :=
                else Run (MNorm 0 false) (attr_ws c :: acc)
            | Text =>
                if (c =? c_gt) && (2 <=? rb)%nat then Dead
-               else Run (MNorm (if c =? c_rbr then Nat.min 2 (S rb) else 0%nat) false) (c :: acc)
+               else Run (MNorm (bump c rb) false) (c :: acc)
            end
   end.
 
